@@ -299,6 +299,8 @@ def _compare(op, value, literal):
     """
     A comparison on an absent tag or between incomparable kinds is false.
     """
+    if value is NOT_FOUND:
+        return False
     if isinstance(value, bool) != isinstance(literal, bool):
         # A Bool and a value of another kind are never equal nor ordered
         # (Python would compare True with 1)
